@@ -41,6 +41,7 @@ class Contract:
     pair_ensures: list = field(default_factory=list)
     pair_shared: tuple = ()
     name_prefix: str = ""
+    no_replay: bool = False  # inputs cannot be rebuilt as real objects (third-party classes, captured effects)
 
     @property
     def short(self):
